@@ -7,6 +7,10 @@
  *   T off p3 n {cb p1 p2 prio}*n  tdma_schedule_set(off, set, p3); cb 0 = NULL
  *                                 ("next frame"); the end marker is appended
  *   E                             tdma_sched_execute(): rc and the callbacks run
+ *   F n {ccb cp1 cp2 cp3 off cb p1 p2 p3 prio}*n
+ *                                 arm n one-shot spawns for the next E: when the callback
+ *                                 (ccb, cp1, cp2, cp3) is invoked it calls tdma_schedule(off, ...)
+ *                                 itself ("on the fly" scheduling from inside a callback)
  *   A                             tdma_sched_advance()
  *   R                             tdma_sched_reset()
  *   G fn p3 n {cb p1 p2 prio}*n   sched_gsmtime(set, fn, p3)
@@ -29,8 +33,14 @@ struct l1s_state l1s;
 static struct { int cb; unsigned p1, p2, p3; } calls[MAXCALLS];
 static int ncalls;
 
+#define MAXSPAWN 32
+static struct { int on, ccb; unsigned cp1, cp2, cp3; long off, cb, p1, p2, p3, prio; } spawn[MAXSPAWN];
+static int nspawn;
+static tdma_sched_cb *cb_by_index(long i);
+
 static int logcb(int id, uint8_t p1, uint8_t p2, uint16_t p3)
 {
+	int k;
 	if (ncalls < MAXCALLS) {
 		calls[ncalls].cb = id;
 		calls[ncalls].p1 = p1;
@@ -38,6 +48,15 @@ static int logcb(int id, uint8_t p1, uint8_t p2, uint16_t p3)
 		calls[ncalls].p3 = p3;
 	}
 	ncalls++;
+	for (k = 0; k < nspawn; k++) {
+		if (spawn[k].on && spawn[k].ccb == id && spawn[k].cp1 == p1 && spawn[k].cp2 == p2 && spawn[k].cp3 == p3) {
+			spawn[k].on = 0;
+			/* the callback schedules a further item and reports success whatever comes back */
+			tdma_schedule((uint8_t)spawn[k].off, cb_by_index(spawn[k].cb), (uint8_t)spawn[k].p1,
+				      (uint8_t)spawn[k].p2, (uint16_t)spawn[k].p3, (int16_t)spawn[k].prio);
+			break;
+		}
+	}
 	return 0;
 }
 static int cb1(uint8_t p1, uint8_t p2, uint16_t p3) { return logcb(1, p1, p2, p3); }
@@ -45,6 +64,7 @@ static int cb2(uint8_t p1, uint8_t p2, uint16_t p3) { return logcb(2, p1, p2, p3
 static int cb3(uint8_t p1, uint8_t p2, uint16_t p3) { return logcb(3, p1, p2, p3); }
 static int cb4(uint8_t p1, uint8_t p2, uint16_t p3) { return logcb(4, p1, p2, p3); }
 static tdma_sched_cb *const cbs[5] = { NULL, cb1, cb2, cb3, cb4 };
+static tdma_sched_cb *cb_by_index(long i) { return (i >= 1 && i <= 4) ? cbs[i] : cb1; }
 
 /* item sets handed to sched_gsmtime() are referenced until the event fires:
  * they live in an arena that is only recycled at the start of a trace */
@@ -131,10 +151,31 @@ int main(void)
 			printf("{\"op\":\"T\",\"rc\":%d}\n", rc);
 			break;
 		}
+		case 'F': {
+			long n = strtol(p, &p, 10), k;
+			nspawn = 0;
+			for (k = 0; k < n && k < MAXSPAWN; k++) {
+				spawn[k].on = 1;
+				spawn[k].ccb = (int)strtol(p, &p, 10);
+				spawn[k].cp1 = (unsigned)strtol(p, &p, 10);
+				spawn[k].cp2 = (unsigned)strtol(p, &p, 10);
+				spawn[k].cp3 = (unsigned)strtol(p, &p, 10);
+				spawn[k].off = strtol(p, &p, 10);
+				spawn[k].cb = strtol(p, &p, 10);
+				spawn[k].p1 = strtol(p, &p, 10);
+				spawn[k].p2 = strtol(p, &p, 10);
+				spawn[k].p3 = strtol(p, &p, 10);
+				spawn[k].prio = strtol(p, &p, 10);
+				nspawn++;
+			}
+			printf("{\"op\":\"F\",\"n\":%d}\n", nspawn);
+			break;
+		}
 		case 'E': {
 			int rc, i;
 			ncalls = 0;
 			rc = tdma_sched_execute();
+			nspawn = 0;
 			printf("{\"op\":\"E\",\"rc\":%d,\"n\":%d,\"calls\":[", rc, ncalls);
 			for (i = 0; i < ncalls && i < MAXCALLS; i++)
 				printf("%s[%d,%u,%u,%u]", i ? "," : "", calls[i].cb, calls[i].p1, calls[i].p2, calls[i].p3);
